@@ -65,8 +65,9 @@ func (b *Bucket) Do(req *http.Request) (*http.Response, error) {
 	}
 	b.Uploads = append(b.Uploads, u)
 	b.mu.Unlock()
-	w.S.Log("s3 put #%d %s %d bytes outcome=%d", u.Idx, u.Key, len(body), u.Outcome)
+	w.S.Log("s3 put #%d %s outcome=%d", u.Idx, u.Key, u.Outcome) // no sizes: ciphertext lengths vary with random key ids
 	finish := func(ok bool) {
+		w.S.Gate("s3-return")
 		b.mu.Lock()
 		u.EndT, u.OK, u.Done = w.S.Now(), ok, true
 		b.mu.Unlock()
@@ -215,6 +216,7 @@ func Run(s *kernel.Sim) *World {
 	s.Go("backup", func(task *kernel.Task) {
 		loopTask = task
 		server.VerifPeriodicBackup(ctx, d, client, "backups")
+		s.Gate("loop-exit")
 		loopDone = true
 		loopDoneT = s.Now()
 	})
@@ -332,6 +334,7 @@ func Run(s *kernel.Sim) *World {
 	}
 	// teardown. A loop that busy-waits on an unchanged generation never looks
 	// at its context; a final write makes it take the branch that does.
+	s.Closing()
 	cancel()
 	close(w.Bucket.killed)
 	d.Put(sup, "teardown", []byte(fmt.Sprint(s.Now())))
